@@ -153,9 +153,10 @@ func init() {
 // limb addition does carry. For every ADCQ / ADCL / SBBQ / SBBL in the amd64 assembly (macros included) the
 // rule finds the closest preceding instruction, in straight-line order inside the same TEXT or macro, that
 // writes the carry flag; it must not be a logic instruction (XOR, AND, OR, TEST), whose carry is constant 0.
+// Conditional moves, sets and jumps on the carry (CMOVQCS / CMOVQCC / SETCS / JCS ...) consume it the same way.
 // (The ADX instructions ADCXQ / ADOXQ start their chains from a flag cleared on purpose and are not subject.)
 var (
-	asmCarryConsumer = regexp.MustCompile(`^(ADCQ|ADCL|SBBQ|SBBL)\b`)
+	asmCarryConsumer = regexp.MustCompile(`^(ADCQ|ADCL|SBBQ|SBBL|CMOVQCS|CMOVQCC|CMOVLCS|CMOVLCC|CMOVQHI|CMOVQLS|SETCS|SETCC|JCS|JCC|JHI|JLS|RCLQ|RCRQ)\b`)
 	asmCarryLogic    = regexp.MustCompile(`^(XORQ|XORL|ANDQ|ANDL|ORQ|ORL|TESTQ|TESTL|ANDNQ)\b`)
 	asmCarryArith    = regexp.MustCompile(`^(ADDQ|ADDL|ADCQ|ADCL|SUBQ|SUBL|SBBQ|SBBL|NEGQ|NEGL|CMPQ|CMPL|SHLQ|SHRQ|SARQ|SHLL|SHRL|MULQ|MULL|IMULQ|IMUL3Q|BTQ|BTL|ADCXQ|RCLQ|RCRQ|SHLDQ|SHRDQ)\b`)
 )
